@@ -93,6 +93,11 @@ func CheckOutcome(cmd *Cmd, ex Expect, got Outcome, mt *MTable) (fails []Fail, q
 			// another failure class for a rejected request: "rejected" is all the statement says
 		case want.Class == "ok":
 			add(mainRule(cmd), "expected success, got %s %s", got.Class, got.Err)
+			if got.Class == "validation" && mt != nil && len(cmd.KeyExtra) == 0 && (cmd.Op == "Get" || (cmd.Op == "Delete" && cmd.Cond == nil)) &&
+				keyProblem(mt.Def.KeyAttrs(), cmd.Key, true) == "" {
+				// a request that consists of a key only: the key is what was refused
+				add("C13.accept", "%s refused the well-formed key %s (%s): every value of the declared key types identifies an item", cmd.Op, cmd.Key.Canon(), got.Err)
+			}
 		default:
 			add(mainRule(cmd), "expected %s, got %s %s", want.Class, got.Class, got.Err)
 		}
@@ -376,6 +381,11 @@ func CheckKeyInvariant(def TableDef, u *TableUni, ot *ObsTable) []Fail {
 	}
 	for _, k := range u.KeysOf(def) {
 		got := ot.Gets[k.Canon()]
+		if got == "!validation" {
+			// the observer's GetItem consists of a key of the declared types only
+			fails = append(fails, Fail{"C13.accept", fmt.Sprintf("GetItem refused the well-formed key %s: every value of the declared key types identifies an item", k.Canon())})
+			continue
+		}
 		if got == "<none>" || strings.HasPrefix(got, "!") {
 			continue
 		}
